@@ -174,6 +174,22 @@ class _LookupEval:
             raise _Raises("falls off the end (returns None)")
         return out[0]
 
+    def _inline(self, g: FuncInfo, args: list, at):
+        a = g.node.args
+        params = [x.arg for x in list(a.posonlyargs) + list(a.args)]
+        if len(params) != len(args) or a.vararg or a.kwarg or a.kwonlyargs:
+            raise AnalysisError(f"C20.R1: cannot bind `{norm(at)}` to {g.qual}{tuple(params)}")
+        self._depth = getattr(self, "_depth", 0) + 1
+        try:
+            if self._depth > 6:
+                raise AnalysisError(f"C20.R1: helper nesting too deep at `{norm(at)}`")
+            out = self._block(g.node.body, dict(zip(params, args)))
+        finally:
+            self._depth -= 1
+        if out is None:
+            raise _Raises(f"{g.qual} falls off the end (returns None)")
+        return out[0]
+
     def _block(self, stmts, env):
         for st in stmts:
             if isinstance(st, ast.Expr) and isinstance(st.value, ast.Constant):
@@ -255,6 +271,11 @@ class _LookupEval:
                         return list(recv).index(_plain(args[0]))
                     except ValueError:
                         raise _Raises(f"ValueError: {args[0]!r} not in the name table")
+                if (isinstance(recv, EnumVal) or recv is _CLS) and isinstance(n.func.value, ast.Name):
+                    # helper method of the enum class itself (self._x(...) / cls._x(...))
+                    hm = _lookup_method(self.repo, self.ci, m)
+                    if hm is not None:
+                        return self._inline(hm, [recv] + args, n)
                 raise AnalysisError(f"C20.R1: unsupported call `{norm(n)}` in {self.ci.name}")
             f = self._e(n.func, env) if isinstance(n.func, ast.Name) and (n.func.id in env or n.func.id == self.ci.name) \
                 else None
@@ -268,6 +289,12 @@ class _LookupEval:
                     return {"int": int, "str": str, "len": len}[n.func.id](_plain(args[0]))
                 except (ValueError, TypeError) as e:
                     raise _Raises(f"{type(e).__name__} {e}")
+            if isinstance(n.func, ast.Name) and n.func.id not in env:
+                # helper extracted to a module-level function of the enum's module: inline it
+                helpers = [g for g in self.repo.funcs.get(n.func.id, [])
+                           if g.module is self.ci.module and g.cls is None and g.parent_fn is None]
+                if len(helpers) == 1:
+                    return self._inline(helpers[0], args, n)
             raise AnalysisError(f"C20.R1: unsupported call `{norm(n)}` in {self.ci.name}")
         if isinstance(n, ast.Compare) and len(n.ops) == 1:
             a, b = _plain(self._e(n.left, env)), _plain(self._e(n.comparators[0], env))
@@ -821,6 +848,22 @@ def _names_from_table(fn_node, into: set):
             into.add(st.path)
 
 
+def _derives_from_table(repo, fi: FuncInfo, e, tables: set, depth=0) -> bool:
+    """Expression is (a dict built from) a _get_fields_dict() result - directly, through a local, or through a
+    self./cls. helper whose return value is."""
+    if ap(e) in tables or find_calls(e, "_get_fields_dict"):
+        return True
+    if depth < 3 and isinstance(e, ast.Call) and isinstance(e.func, ast.Attribute) and isinstance(e.func.value, ast.Name) \
+            and e.func.value.id in ("self", "cls") and fi.cls is not None:
+        m = _lookup_method(repo, fi.cls, e.func.attr)
+        if m is not None:
+            mt: set = set()
+            _names_from_table(m.node, mt)
+            return any(r.value is not None and _derives_from_table(repo, m, r.value, mt, depth + 1)
+                       for r in walk(m.node) if isinstance(r, ast.Return))
+    return False
+
+
 def _key_checks(ctx, fi: FuncInfo, role: str, flavoured: bool):
     """The writer emits / the reader looks up the *table key*; a flavoured reader stores under field.name."""
     tables: set = set()
@@ -832,7 +875,7 @@ def _key_checks(ctx, fi: FuncInfo, role: str, flavoured: bool):
             it = lp.iter
             if isinstance(it, ast.Call) and call_attr(it) == "items" and isinstance(it.func, ast.Attribute):
                 recv = it.func.value
-                if (ap(recv) in tables or find_calls(recv, "_get_fields_dict")) and isinstance(lp.target, ast.Tuple) \
+                if _derives_from_table(ctx.repo, fi, recv, tables) and isinstance(lp.target, ast.Tuple) \
                         and len(lp.target.elts) == 2 and isinstance(lp.target.elts[0], ast.Name):
                     hit = lp
         ctx.require(hit is not None, f"C20.R3: {fi.qual}: no loop over the field table's items() (re-read)")
@@ -856,7 +899,7 @@ def _key_checks(ctx, fi: FuncInfo, role: str, flavoured: bool):
     hit = None
     for lp in loops:
         for n in walk(lp):
-            if isinstance(n, ast.Compare) and len(n.ops) == 1 and isinstance(n.ops[0], ast.In) \
+            if isinstance(n, ast.Compare) and len(n.ops) == 1 and isinstance(n.ops[0], (ast.In, ast.NotIn)) \
                     and ap(n.comparators[0]) in tables:
                 hit = (lp, ap(n.left), ap(n.comparators[0]))
     ctx.require(hit is not None, f"C20.R3: {fi.qual}: no `key in <field table>` test found (re-read)")
@@ -1369,8 +1412,21 @@ def r5(ctx):
                 sites = [x for g in fns if g is not f for x in find_calls(g.node, f.name)]
                 if len(sites) == 1:
                     fs = fs + facts(sites[0], next(g for g in fns if any(x is sites[0] for x in calls(g.node, True))).node)
-            counted = [e for e, p in fs if any(isinstance(x, ast.Call) and ap(x.func) == "len" and x.args
-                                               and (ap(x.args[0]) or "").endswith(".chunks") for x in ast.walk(e))]
+            def count_cmp(e, fn_node):
+                """the (hoisted-local expanded) comparison of len(<x>.chunks) this condition *requires*, if any:
+                a comparison itself, or an `or` every alternative of which is one (an `or` with any other
+                alternative lets the transfer complete without the count)."""
+                e = _expand(fn_node, e)
+                if isinstance(e, ast.BoolOp) and isinstance(e.op, ast.Or):
+                    subs = [count_cmp(v, fn_node) for v in e.values]
+                    return subs[0] if all(x is not None for x in subs) else None
+                if isinstance(e, ast.BoolOp) and isinstance(e.op, ast.And):
+                    return next((x for x in (count_cmp(v, fn_node) for v in e.values) if x is not None), None)
+                if isinstance(e, ast.Compare) and any(isinstance(x, ast.Call) and ap(x.func) == "len" and x.args
+                                                      and (ap(x.args[0]) or "").endswith(".chunks") for x in ast.walk(e)):
+                    return e
+                return None
+            counted = [x for x in (count_cmp(e, f.node) for e, p in fs if p) if x is not None]
             tag = "" if i == 0 else f" #{i + 1}"
             _ob(ctx, "C20.R5", f"{h.qual}: completion{tag} depends on the number of chunks held", bool(counted), ctx.w(f, c),
                    "mark_done() is reached without comparing len(chunks): with the end-marked packet arriving "
@@ -1409,25 +1465,42 @@ def r6(ctx):
                        "version key set, which contains the default version")
     mod = repo.module(ANIM)
     ev = ConstEval(repo, mod)
+    def owner_of(node):
+        for a in ancestors(node):
+            if isinstance(a, (ast.FunctionDef, ast.AsyncFunctionDef)):
+                return None
+            if isinstance(a, ast.AnnAssign) and isinstance(a.target, ast.Name):
+                cls = next((x for x in ancestors(a) if isinstance(x, ast.ClassDef)), None)
+                return (cls.name + "." if cls else "") + a.target.id
+            if isinstance(a, ast.Assign) and len(a.targets) == 1 and isinstance(a.targets[0], ast.Name):
+                return a.targets[0].id
+        return None
     sw = []
     for c in find_calls(mod.tree, "ContextSwitch"):
-        if len(c.args) == 2 and isinstance(c.args[1], ast.Dict):
-            owner = None
-            for a in ancestors(c):
-                if isinstance(a, ast.AnnAssign) and isinstance(a.target, ast.Name):
-                    cls = next((x for x in ancestors(a) if isinstance(x, ast.ClassDef)), None)
-                    owner = (cls.name + "." if cls else "") + a.target.id
-                    break
-                if isinstance(a, ast.Assign) and len(a.targets) == 1 and isinstance(a.targets[0], ast.Name):
-                    owner = a.targets[0].id
-                    break
-            ctx.require(owner is not None, f"C20.R6: ContextSwitch at line {c.lineno} is not bound to a field or constant")
-            keys = []
-            for k in c.args[1].keys:
-                v = ev.ev(k) if k is not None else Sym("**")
-                ctx.require(is_const(v), f"C20.R6: {owner}: option key {norm(k)} is not a constant")
-                keys.append(v)
-            sw.append((owner, c, ap(c.args[0]) or norm(c.args[0]), keys))
+        if not (len(c.args) == 2 and isinstance(c.args[1], ast.Dict)):
+            raise AnalysisError(f"C20.R6: ContextSwitch at line {c.lineno} has no literal option table (re-read)")
+        keys = []
+        for k in c.args[1].keys:
+            v = ev.ev(k) if k is not None else Sym("**")
+            ctx.require(is_const(v), f"C20.R6: ContextSwitch option key {norm(k)} is not a constant")
+            keys.append(v)
+        selector = ap(c.args[0]) or norm(c.args[0])
+        owner = owner_of(c)
+        if owner is not None:
+            sw.append((owner, c, selector, keys))
+            continue
+        # a factory: `def f(...): return ContextSwitch(selector, {K1: a, K2: b})` - every bound call is an instance
+        fac = next((a for a in ancestors(c) if isinstance(a, (ast.FunctionDef, ast.AsyncFunctionDef))), None)
+        is_ret = fac is not None and any(isinstance(r, ast.Return) and r.value is c for r in walk(fac))
+        ctx.require(is_ret and isinstance(getattr(fac, "_parent", None), ast.Module),
+                    f"C20.R6: ContextSwitch at line {c.lineno} is not bound to a field or constant, nor returned by a "
+                    f"module-level factory (re-read)")
+        sites = [x for x in find_calls(mod.tree, fac.name) if isinstance(x.func, ast.Name)]
+        ctx.require(sites, f"C20.R6: ContextSwitch factory {fac.name} is never called")
+        for x in sites:
+            o = owner_of(x)
+            ctx.require(o is not None, f"C20.R6: {fac.name}(...) at line {x.lineno} is not bound to a field or constant")
+            sw.append((o, x, selector, keys))
     ctx.floor("C20.R6", "ContextSwitch specs in llanim", len(sw), 3)
     anim = repo.cls("Animation", ANIM)
     dflt = []
@@ -1608,6 +1681,189 @@ def r7(ctx):
            if elided and not want else "the two sides frame a full vertex differently"))
 
 
+# =========================================================================== R8
+
+def _field_domain(repo, ci: ClassInfo, fd: _Field):
+    """(kind, values, optional): what a parsed value of this schema field can be."""
+    optional = fd.call is not None and isinstance(kw(fd.call, "default"), ast.Constant) and kw(fd.call, "default").value is None
+    spec = fd.spec
+    if isinstance(spec, ast.Call) and call_attr(spec) == "SchemaEnumField" and spec.args:
+        ec = repo.resolve_class(ap(spec.args[0]) or "", ci.module)
+        if ec is None:
+            raise AnalysisError(f"C20.R8: enum of {ci.name}.{fd.name} does not resolve")
+        return "enum", set(enum_members(repo, ec).values()), optional
+    name = (ap(spec) or "").split(".")[-1]
+    if name in ("SchemaInt", "SchemaHexInt", "SchemaFlagField"):
+        return "int", None, optional
+    if name in ("SchemaStr", "SchemaMultilineStr"):
+        return "str", None, optional
+    return "other", None, optional
+
+
+def _domain_hits(dom, v) -> bool:
+    kind, values, optional = dom
+    if v is None:
+        return optional
+    if isinstance(v, bool):
+        return False
+    if isinstance(v, int):
+        return kind == "int" or (kind == "enum" and v in values)
+    if isinstance(v, str):
+        return kind == "str"
+    return False
+
+
+def r8(ctx):
+    repo = ctx.repo
+    ctx.rule("C20.R8", "reader totality: no parse-side skip (return None) is conditioned on a parsed field value "
+                       "that the writer can emit for that field")
+    sbase = repo.cls("SchemaBase", SCHEMA)
+    classes = _subclasses(repo, sbase, strict=False)
+    seen = set()
+    examined = 0
+    for ci in classes:
+        for mname, m in ci.methods.items():
+            if m.full in seen:
+                continue
+            seen.add(m.full)
+            parsed = set()
+            if m.name == "_obj_from_dict" and len(_first_params(m)) >= 2:
+                parsed.add(_first_params(m)[1])
+            for c in find_calls(m.node, "_obj_from_dict"):
+                parsed |= {ap(a) for a in c.args if isinstance(a, ast.Name)}
+            if not parsed:
+                continue
+            ev = ConstEval(repo, m.module)
+            users = [c for c in classes if _is_dataclass(c) and _lookup_method(repo, c, m.name) == m] \
+                if m.name == "_obj_from_dict" else [c for c in classes if _is_dataclass(c) and any(k == ci for k in _mro(repo, c))]
+            for r in walk(m.node):
+                if not (isinstance(r, ast.Return) and (r.value is None or (isinstance(r.value, ast.Constant)
+                                                                            and r.value.value is None))):
+                    continue
+                for e, pol in facts(r, m.node):
+                    if not (isinstance(e, ast.Compare) and len(e.ops) == 1):
+                        continue
+                    sides = [e.left, e.comparators[0]]
+                    reads = []
+                    for i, x in enumerate(sides):
+                        k = None
+                        if isinstance(x, ast.Call) and call_attr(x) == "get" and isinstance(x.func, ast.Attribute) \
+                                and ap(x.func.value) in parsed and x.args and isinstance(x.args[0], ast.Constant):
+                            k = x.args[0].value
+                        elif isinstance(x, ast.Subscript) and ap(x.value) in parsed and isinstance(x.slice, ast.Constant):
+                            k = x.slice.value
+                        if isinstance(k, str):
+                            reads.append((i, k))
+                    if len(reads) != 1:
+                        continue
+                    i, key = reads[0]
+                    other = sides[1 - i]
+                    op = type(e.ops[0]).__name__
+                    if op in ("Eq", "NotEq", "Is", "IsNot"):
+                        cands = [other]
+                        equal = (op in ("Eq", "Is")) == pol
+                    elif op in ("In", "NotIn") and i == 0 and isinstance(other, (ast.Tuple, ast.List, ast.Set)):
+                        cands = list(other.elts)
+                        equal = (op == "In") == pol
+                    else:
+                        raise AnalysisError(f"C20.R8: {m.qual}: unsupported skip condition `{norm(e)}` (re-read)")
+                    vals = []
+                    for cnode in cands:
+                        v = ev.ev(cnode)
+                        if isinstance(v, EnumVal):
+                            v = v.value
+                        if not (v is None or isinstance(v, (int, str))):
+                            raise AnalysisError(f"C20.R8: {m.qual}: skip compares `{key}` with non-constant `{norm(cnode)}`")
+                        vals.append(v)
+                    for c in sorted(users, key=lambda k: k.name):
+                        fd = _dc_fields(repo, c).get(key)
+                        if fd is None or not fd.is_schema:
+                            continue
+                        examined += 1
+                        dom = _field_domain(repo, c, fd)
+                        if equal:
+                            hit = [v for v in vals if _domain_hits(dom, v)]
+                        else:   # skipped unless the field equals one of vals: every other emitted value is dropped
+                            hit = ["<any other value>"]
+                        _ob(ctx, "C20.R8", f"{m.qual}: skip when {key} {'==' if equal else '!='} {norm(other)} drops nothing "
+                                           f"{c.name} can serialise", not hit, ctx.w(m, r),
+                            f"{c.name}.{key} can legitimately be {hit} (the writer emits it), but the reader then returns "
+                            f"None: such a node is silently dropped on parse")
+    ctx.stats["C20.R8.skip guards x classes"] = examined
+
+
+# =========================================================================== R9
+
+def r9(ctx):
+    repo = ctx.repo
+    ctx.rule("C20.R9", "mesh segments: the raw-bytes cache is only a fallback - every lookup of it while serialising "
+                       "is conditioned on the parsed segment being absent")
+    ser = repo.fn("LLMeshSerializer.serialize", MESH)
+    des = repo.fn("LLMeshSerializer.deserialize", MESH)
+    # which MeshAsset attribute holds bytes as read, which the parsed value: from the reader's stores
+    raw_attr = parsed_attr = None
+    byte_names = {st.path for st in stores(des.node, into_defs=False) if st.kind == "assign" and st.value is not None
+                  and any(call_attr(c) == "read_bytes" for c in calls(st.value))}
+    for st in stores(des.node, into_defs=False):
+        if st.kind == "setitem" and "." in st.path and st.value is not None:
+            attr = st.path.split(".")[-1]
+            if ap(st.value) in byte_names:
+                raw_attr = attr
+            else:
+                parsed_attr = attr
+    ctx.require(raw_attr and parsed_attr and raw_attr != parsed_attr,
+                "C20.R9: cannot tell the raw and the parsed segment tables apart in LLMeshSerializer.deserialize (re-read)")
+
+    def lookups(fn_node, attr):
+        out = []
+        for n in walk(fn_node, into_defs=True):
+            if isinstance(n, ast.Call) and call_attr(n) == "get" and isinstance(n.func, ast.Attribute) \
+                    and (ap(n.func.value) or "").endswith("." + attr):
+                out.append(n)
+            elif isinstance(n, ast.Subscript) and isinstance(n.ctx, ast.Load) and (ap(n.value) or "").endswith("." + attr):
+                out.append(n)
+        return out
+    fns = class_methods_reachable(repo, ser)
+    n_raw = 0
+    n_parsed = sum(len(lookups(f.node, parsed_attr)) for f in fns)
+    ctx.require(n_parsed > 0, f"C20.R9: serialize never looks a segment up in `.{parsed_attr}` (re-read)")
+    for f in fns:
+        parsed_names = {st.path for st in stores(f.node, into_defs=False) if st.kind == "assign" and st.value is not None
+                        and lookups(st.value, parsed_attr) and not lookups(st.value, raw_attr)}
+
+        def absent(e, pol) -> bool:
+            if isinstance(e, ast.Compare) and len(e.ops) == 1 and isinstance(e.ops[0], (ast.In, ast.NotIn)) \
+                    and (ap(e.comparators[0]) or "").endswith("." + parsed_attr):
+                return isinstance(e.ops[0], ast.NotIn) == pol
+            nt = is_none_test(e)
+            if nt is not None:
+                tgt = e.left
+                if nt[0] in parsed_names or (lookups(tgt, parsed_attr) and not lookups(tgt, raw_attr)):
+                    return pol == nt[1]
+                return False
+            if (ap(e) in parsed_names) or (isinstance(e, (ast.Call, ast.Subscript)) and e in lookups(e, parsed_attr)):
+                return not pol
+            return False
+        for i, n in enumerate(lookups(f.node, raw_attr)):
+            n_raw += 1
+            ok = False
+            cur = n
+            for a in ancestors(n):
+                if isinstance(a, ast.Call) and call_attr(a) == "get" and isinstance(a.func, ast.Attribute) \
+                        and (ap(a.func.value) or "").endswith("." + parsed_attr) and len(a.args) > 1 \
+                        and any(x is cur for x in a.args[1:]):
+                    ok = True
+                if isinstance(a, ast.stmt):
+                    break
+                cur = a
+            ok = ok or any(absent(e, pol) for e, pol in facts(n, f.node))
+            _ob(ctx, "C20.R9", f"{f.qual}: raw segment lookup{'' if i == 0 else f' #{i + 1}'} is a fallback of the parsed lookup",
+                ok, ctx.w(f, n),
+                f"`{norm(n)}` is consulted without the parsed `.{parsed_attr}` entry being known absent: edits to a "
+                f"parsed segment are discarded in favour of the stale bytes it was parsed from")
+    ctx.floor("C20.R9", "raw segment lookups in LLMeshSerializer.serialize", n_raw, 1)
+
+
 def run(ctx):
     r1(ctx)
     r2(ctx)
@@ -1616,3 +1872,5 @@ def run(ctx):
     r5(ctx)
     r6(ctx)
     r7(ctx)
+    r8(ctx)
+    r9(ctx)
